@@ -221,3 +221,101 @@ func (miscArea) Gen(r *hx.Rng, n int, _ string, emit func(string)) {
 		emit("frac " + ty + " " + strconv.Itoa(d) + " " + num.String() + " " + den.String())
 	}
 }
+
+// ---------------------------------------------------------------------------------------------------------------
+// fltmArea: the float branch against the Lean model (Model/FixedTextFloat.lean):
+//   pf <bits> <hex text>        strconv.ParseFloat(text, bits) of a decimal text     -> bit pattern
+//   ff <bits> <hex bit pattern> strconv.FormatFloat(x, 'f', -1, bits)                -> text
+//   cfm <ty> <D> <raw> <bits>   As and CheckedAs to float32 / float64                -> bit patterns / nofit
+
+type fltmArea struct{}
+
+func bitsHex(v float64, bits int) string {
+	if bits == 32 {
+		return strconv.FormatUint(uint64(math.Float32bits(float32(v))), 16)
+	}
+	return strconv.FormatUint(math.Float64bits(v), 16)
+}
+
+func (fltmArea) Run(line string) string {
+	f := strings.Fields(line)
+	switch {
+	case len(f) == 3 && f[0] == "pf":
+		bits := hx.Atoi(f[1])
+		v, _ := strconv.ParseFloat(string(hx.UnHex(f[2])), bits) //nolint:errcheck // the value is what CheckedAs uses
+		return bitsHex(v, bits)
+	case len(f) == 3 && f[0] == "ff":
+		bits := hx.Atoi(f[1])
+		u, err := strconv.ParseUint(f[2], 16, 64)
+		if err != nil {
+			return "bad-op"
+		}
+		var v float64
+		if bits == 32 {
+			v = float64(math.Float32frombits(uint32(u)))
+		} else {
+			v = math.Float64frombits(u)
+		}
+		return hx.Hex([]byte(strconv.FormatFloat(v, 'f', -1, bits)))
+	case len(f) == 5 && f[0] == "cfm":
+		_, t := getCfg(f[2], f[1])
+		if t == nil {
+			return "bad-op"
+		}
+		fn := t.asFloat[f[4]]
+		if fn == nil {
+			return "bad-op"
+		}
+		got := fn(parseRaw(f[3]))
+		out := bitsHex(got.as, got.bits)
+		if got.ok {
+			return out + " ok:" + bitsHex(got.v, got.bits)
+		}
+		return out + " nofit"
+	}
+	return "bad-op"
+}
+
+func (fltmArea) Gen(r *hx.Rng, n int, _ string, emit func(string)) {
+	for i := 0; i < n; i++ {
+		switch r.Intn(6) {
+		case 0: // ParseFloat of decimal texts: 0-40 digits on either side, signs, leading/trailing zeros
+			s := pick3(r)
+			ip := digits(r, r.Intn(hx.Pick(r, []int{1, 3, 10, 20, 41})))
+			fp := digits(r, r.Intn(hx.Pick(r, []int{1, 3, 10, 20, 41})))
+			if r.Chance(1, 4) {
+				ip = strings.Repeat("0", r.Intn(4)) + ip
+			}
+			if r.Chance(1, 4) {
+				fp += strings.Repeat("0", r.Intn(4))
+			}
+			if ip == "" && fp == "" {
+				ip = "0"
+			}
+			s += ip
+			if fp != "" || r.Chance(1, 8) {
+				s += "." + fp
+			}
+			emit("pf " + hx.Pick(r, []string{"32", "64"}) + " " + hx.Hex([]byte(s)))
+		case 1: // FormatFloat of arbitrary bit patterns (both widths), and of values with few digits
+			if r.Bool() {
+				u := uint32(r.U64())
+				if r.Chance(1, 3) {
+					u = math.Float32bits(float32(r.Intn(100000)) / float32(hx.Pick(r, []int{1, 2, 4, 8, 10, 100, 1000, 3, 7})))
+				}
+				emit("ff 32 " + strconv.FormatUint(uint64(u), 16))
+			} else {
+				u := r.U64()
+				if r.Chance(1, 3) {
+					u = math.Float64bits(float64(r.Intn(10000000)) / float64(hx.Pick(r, []int{1, 2, 4, 8, 10, 100, 1000, 3, 7, 1 << 20})))
+				}
+				if r.Chance(1, 10) {
+					u = math.Float64bits(math.Ldexp(1, r.Intn(200)-100)) + uint64(r.Intn(3)) - 1
+				}
+				emit("ff 64 " + strconv.FormatUint(u, 16))
+			}
+		default:
+			emit(genFloatCase(r, "cfm"))
+		}
+	}
+}
